@@ -42,19 +42,15 @@ def load_contracts(pid):
 
 
 def _run_one(args):
-    pid, idx, timeout_ms, repo = args
+    pid, idx, timeout_ms, repo, workers = args
     from contracts import common
 
     cons = load_contracts(pid)
     con = cons[idx]
     core.STATS = core.SolverStats()
-    if con.lang == "py":
-        runner = verify.Runner(repo=repo, timeout_ms=timeout_ms, setup_interp=common.setup_interp)
-        res = runner.run_contract(con)
-    else:
-        from mdvc import cverify
-
-        res = cverify.run_contract(con, repo=repo, timeout_ms=timeout_ms)
+    runner = verify.Runner(repo=repo, timeout_ms=timeout_ms, setup_interp=common.setup_interp)
+    runner.workers = workers
+    res = runner.run_contract(con)
     d = res.to_json()
     d["obligations"] = [o.to_json() | ({"model": o.model} if o.status == "refuted" else {}) for o in res.obligations]
     samples = []
@@ -80,14 +76,20 @@ def _run_one(args):
 def run_deductive(pid, tier, repo, jobs):
     cons = load_contracts(pid)
     timeout_ms = 10000 if tier == "quick" else 60000
-    tasks = [(pid, i, timeout_ms, repo) for i in range(len(cons))]
-    if not tasks:
+    if not cons:
         return []
+    outer = max(1, min(jobs, len(cons)))
+    inner = max(1, jobs // outer) if jobs > 1 else 1
+    if len(cons) <= 4:
+        inner = max(inner, min(jobs, 8))
+    tasks = [(pid, i, timeout_ms, repo, inner) for i in range(len(cons))]
     if jobs <= 1 or len(tasks) == 1:
         return [_run_one(t) for t in tasks]
+    from concurrent.futures import ProcessPoolExecutor
+
     ctx = mp.get_context("fork")
-    with ctx.Pool(min(jobs, len(tasks))) as pool:
-        return pool.map(_run_one, tasks, chunksize=1)
+    with ProcessPoolExecutor(max_workers=outer, mp_context=ctx) as pool:
+        return list(pool.map(_run_one, tasks))
 
 
 # ---------------------------------------------------------------------------------------------
